@@ -64,7 +64,19 @@ class SdpTask:
                                     "exception": f"{type(e2).__name__}: {str(e2)[:300]}"}
             return
         if cap is None:
-            rec["notes"].append("no Problem.solve was reached: zero coverage")
+            # the real function answered without handing a program to a solver (a closed-form shortcut): nothing to match
+            # structurally; with an independent oracle the returned value itself is compared
+            if self.replay_oracle is None:
+                rec["notes"].append("no Problem.solve was reached: zero coverage")
+                return
+            rec["disagreements_checked"] = 1
+            got, want = self.value_of(self.call()), self.replay_oracle(self.instance)
+            if abs(got - want) > self.tol:
+                rec["status"] = "violation"
+                rec["violation"] = {"source": "the real function returned without solving a program; its value differs from the independent optimum",
+                                    "inputs": jsonable(self.cfg), "actual": got, "expected": want}
+            else:
+                rec["notes"].append(f"no program was solved (shortcut); the returned value agrees with the independent optimum ({got:.6f} vs {want:.6f})")
             return
         prog = extract(cap)
         rec["programs"] = 1
